@@ -245,6 +245,7 @@ func VerifC15Values3() { c15Values(3) }
 func VerifC15RuntimeCheck() {
 	ctx := context.Background()
 	vcfg("fifo", 1)
+	vcfg("selectfirst", 1)
 	dyn := vchoose("dyn", 4) // what the interface-typed source field holds: 0 int, 1 string, 2 nil, 3 struct
 	var iv any
 	x := vsymInt("x")
@@ -258,8 +259,10 @@ func VerifC15RuntimeCheck() {
 	}
 	var got *c15Dst
 	wf := NewWorkflow[int, int]()
-	wf.AddLambdaNode("s", InvokableLambda(func(ctx context.Context, in int) (c15Src, error) { return c15Src{I: iv, A: 1}, nil })).AddInput(START)
-	sel := vchoose("mapping", 3)
+	wf.AddLambdaNode("s", InvokableLambda(func(ctx context.Context, in int) (c15Src, error) {
+		return c15Src{I: iv, A: 1, M: map[string]any{"k": iv}}, nil
+	})).AddInput(START)
+	sel := vchoose("mapping", 4)
 	var ms []*FieldMapping
 	switch sel {
 	case 0:
@@ -268,22 +271,42 @@ func VerifC15RuntimeCheck() {
 		ms = []*FieldMapping{MapFieldPaths(FieldPath{"I"}, FieldPath{"F"}), MapFieldPaths(FieldPath{"A"}, FieldPath{"N", "U"})}
 	case 2:
 		ms = []*FieldMapping{MapFieldPaths(FieldPath{"I", "X"}, FieldPath{"F"})}
+	case 3: // a value taken from a map[string]any: its type is only known at run time as well
+		ms = []*FieldMapping{MapFieldPaths(FieldPath{"M", "k"}, FieldPath{"F"})}
 	}
 	wf.AddLambdaNode("t", InvokableLambda(func(ctx context.Context, in c15Dst) (int, error) { got = &in; return 1, nil })).AddInput("s", ms...)
 	wf.End().AddInput("t")
 	r, err := wf.Compile(ctx)
 	vassert(err == nil, "mappings from an interface-typed field compile (checked at run time)")
-	_, rerr := r.Invoke(ctx, 0)
-	ok := (sel < 2 && dyn == 0) || (sel == 2 && dyn == 3)
+	var rerr error
+	if vchoose("stream", 2) == 1 {
+		sr, e := r.Stream(ctx, 0)
+		rerr = e
+		if e == nil {
+			for i := 0; i < 4; i++ {
+				_, e := sr.Recv()
+				if e == io.EOF {
+					break
+				}
+				if e != nil {
+					rerr = e
+					break
+				}
+			}
+			sr.Close()
+		}
+	} else {
+		_, rerr = r.Invoke(ctx, 0)
+	}
+	ok := (sel != 2 && dyn == 0) || (sel == 2 && dyn == 3)
 	if ok {
-		vassert(rerr == nil && got != nil && got.F == x, "a dynamic value of the right type is mapped")
+		vassert(rerr == nil && got != nil && got.F == x, "a dynamic value of the right type is mapped, in non-streaming and streaming execution")
 	} else {
 		vassert(rerr != nil, "a dynamic value that does not fit the target is reported as an error")
 		vassert(!strings.Contains(rerr.Error(), "panic"), "a mapping that can only be checked at run time yields an ordinary error, never a panic")
 	}
 }
 
-// a node fed through an input key that also receives field mappings
 func VerifC15InputKey() {
 	ctx := context.Background()
 	vcfg("fifo", 1)
